@@ -453,6 +453,10 @@ class SymInt:
         return z3.SignExt(bits - self.w, self.t)
 
 
+def _fitsw(v, w):
+    return -(1 << (w - 1)) <= v <= (1 << (w - 1)) - 1
+
+
 def is_sym(x):
     return isinstance(x, (SymInt, SymBool)) or (isinstance(x, SymBytes) and x.is_symbolic())
 
@@ -598,8 +602,39 @@ class SymBytes:
             b = max(0, n + b)
         return min(b, n)
 
-    def __getitem__(self, i):
+    def _sym_getitem(self, i):
+        """indexing a zero buffer of symbolic length without enumerating the length"""
+        n = self.symlen
+        ex = _ex.cur()
+        if isinstance(i, slice) and i.step in (None, 1):
+            a = 0 if i.start is None else conc(i.start)
+            b = None if i.stop is None else conc(i.stop)
+            if a >= 0 and (b is None or b >= 0):
+                if b is None:
+                    w = n.w + 1
+                    t = z3.If(n.ext(w) > a, n.ext(w) - a, z3.BitVecVal(0, w))
+                    return SymBytes(symlen=SymInt(t, w, max(0, n.lo - a), max(0, n.hi - a)).fit(), mutable=self.mutable)
+                if b <= a:
+                    return SymBytes([], mutable=self.mutable)
+                # result length L = clamp(n - a, 0, b - a): one n-ary fork over L
+                conds = [n.t <= z3.BitVecVal(a, n.w)] if _fitsw(a, n.w) else [z3.BoolVal(True)]
+                for k in range(1, b - a):
+                    conds.append(n.t == z3.BitVecVal(a + k, n.w) if _fitsw(a + k, n.w) else z3.BoolVal(False))
+                conds.append(n.t >= z3.BitVecVal(b, n.w) if _fitsw(b, n.w) else z3.BoolVal(False))
+                L = ex._kary(conds)
+                return SymBytes([0] * L, mutable=self.mutable)
+        elif not isinstance(i, slice):
+            k = conc(i)
+            if k >= 0:
+                if bool(n > k):
+                    return 0
+                raise IndexError("bytearray index out of range")
         self._realise()
+        return self[i]
+
+    def __getitem__(self, i):
+        if self.symlen is not None:
+            return self._sym_getitem(i)
         if isinstance(i, slice):
             return SymBytes([self.c[k] for k in self._slice(i)], mutable=self.mutable)
         if isinstance(i, (SymInt, SymBool)):
